@@ -1553,7 +1553,12 @@ impl TransactionBuilder {
     }
 
     pub fn set_donation(&mut self, donation: &Coin) {
-        self.donation = Some(donation.clone());
+        // the ledger's donation field is a positive_coin: a zero donation is no donation
+        self.donation = if donation.is_zero() {
+            None
+        } else {
+            Some(donation.clone())
+        };
     }
 
     pub fn get_donation(&self) -> Option<Coin> {
